@@ -60,6 +60,18 @@ func checkCmd(args []string) int {
 	cr.trusted = append(append([]string{}, commonTrusted...), p.trusted...)
 	cr.assumptions = append(append([]string{}, commonAssumptions...), p.assumptions...)
 	if p.instance {
+		if len(p.patterns) > 0 {
+			// functions of the repository that the instance-wise property also depends on
+			w, err := symex.Load(repoDir(), p.patterns, nil)
+			if err != nil {
+				cr.undecided = append(cr.undecided, "load: "+err.Error())
+				fmt.Printf("UNDECIDED property=%s obligation=load reason=%v\n", id, err)
+				return cr.finish(p.note)
+			}
+			cr.blSuffix = "-repo"
+			contractPhase(cr, w, update)
+			cr.blSuffix = ""
+		}
 		instancePhase(cr, update)
 		if cr.tier == "thorough" {
 			mustFailPhase(cr)
@@ -305,9 +317,9 @@ func init() {
 		note: "instance-wise: for every method of every corpus interface, in the variants {with-resets} and {stub-impl}, the generated method is proved to record exactly one call record holding the arguments in parameter order (earlier records untouched, other methods' records and all Func fields untouched) before forwarding, to forward to MFunc exactly once with exactly the arguments, to return exactly what that call returned, to panic when MFunc is nil (or, with stub-impl, to record and return zero values without any call); MCalls returns the records; ResetMCalls/ResetCalls empty exactly the named records; the struct layout (one Func field with the method's signature, one record slice with one field per parameter of the parameter's type, one RWMutex per method, no further methods) is decided by go/types. A sample over interfaces (the corpus), a proof over values and histories."})
 	register(&propInfo{id: "C05", instance: true, trusted: instTrusted,
 		note: "instance-wise, matryer: every read of a record slice happens under its method's read or write lock and every write under the write lock (guarded-by obligations on each syntactic access), Lock/Unlock/RLock/RUnlock follow the protocol on every path (no self-deadlock, no unlock of an unheld lock), no lock is held when the user's function is called or when a method returns. By the lock-discipline meta-theorem this gives data-race freedom and atomic appends for all schedules. Testify-style mocks: not covered by this check (see DESIGN.md 0)."})
-	register(&propInfo{id: "C03", instance: true, trusted: append([]string{
+	register(&propInfo{id: "C03", instance: true, patterns: []string{"./template"}, trusted: append([]string{
 		"testify's mock package is a black box: Called returns the Arguments given to Return for the matching expectation, Arguments.Get(i)/Error(i) is element i, On registers an expectation, a call without matching expectation fails the test, unmet expectations are reported by AssertExpectations at cleanup; none of this is proved here",
 		"a configured value of the wrong dynamic type makes the generated type assertion panic; that is accepted behaviour (safety type-assert-may-panic)",
 	}, instTrusted...),
-		note: "instance-wise, testify-style mocks of the corpus in the variants {unroll-variadic: true} and {unroll-variadic: false}: every generated method hands exactly the call's arguments to Called, exactly once, position by position (variadic: element-wise when unrolled, as one trailing slice argument - absent when empty - otherwise; never the caller's own backing array), panics when results are expected and none was configured, calls a configured provider function only with exactly the arguments and only if it came out of the configured return values, returns for every result either the configured value at its position, the zero value for a configured nil, or what a provider returned, and writes no state of its own (frame: assigns nothing); every expecter method registers the expectation under the method's name with the arguments in order; the typed Run wrapper calls the callback once with exactly the arguments (variadic rebuilt element-wise), Return/RunAndReturn hand testify exactly the values / the function. Known finding reported on every run: nil for an interface-typed fixed parameter panics in the Run wrapper (D12a). Not covered: testify's matching semantics, cleanup assertions."})
+		note: "instance-wise, testify-style mocks of the corpus in the variants {unroll-variadic: true} and {unroll-variadic: false}: every generated method hands exactly the call's arguments to Called, exactly once, position by position (variadic: element-wise when unrolled, as one trailing slice argument - absent when empty - otherwise; never the caller's own backing array), panics when results are expected and none was configured, calls a configured provider function only with exactly the arguments and only if it came out of the configured return values, returns for every result either the configured value at its position, the zero value for a configured nil, or what a provider returned, and writes no state of its own (frame: assigns nothing); every expecter method registers the expectation under the method's name with the arguments in order; the typed Run wrapper calls the callback once with exactly the arguments (variadic rebuilt element-wise), Return/RunAndReturn hand testify exactly the values / the function. Function-level: Var.Nillable/nillable is true for every type whose values can be nil. Known finding reported on every run: nil for an interface-typed fixed parameter panics in the Run wrapper (D12a). Not covered: testify's matching semantics, cleanup assertions."})
 }
